@@ -560,3 +560,19 @@ def spki_parse(d):
 
 class _Stop(Exception):
     pass
+
+
+# ------------------------------------------------------------------ private keys in DER (SEC1 / PKCS #8), named curves
+@op("key.toder")
+@_g
+def key_toder(fmt, oid, priv, pub):
+    curve = curves.find_curve(tuple(int(x) for x in oid.split(",")))
+    sk = keys.SigningKey.from_string(unhx(priv), curve)
+    return "ok " + hx(sk.to_der(format=fmt, point_encoding="uncompressed"))
+
+
+@op("key.fromder")
+@_g
+def key_fromder(d):
+    sk = keys.SigningKey.from_der(unhx(d))
+    return f"ok {sk.curve.name} {int(sk.privkey.secret_multiplier)}"
